@@ -17,6 +17,7 @@ type SpecLib struct {
 
 type SpecModule struct {
 	Name     string
+	Declares map[string]string // function symbols the module text uses and the engine must declare (name -> signature)
 	Requires []string
 	Text     string // SMT text without ;@ lines
 	File     string
@@ -78,6 +79,15 @@ func (sl *SpecLib) loadFile(path string) error {
 					mod.Requires = append(mod.Requires, fs[i])
 				}
 				sl.Modules[mod.Name] = mod
+			case strings.HasPrefix(body, "declare "):
+				fs := strings.SplitN(strings.TrimSpace(body[8:]), " ", 2)
+				if mod == nil || len(fs) != 2 {
+					return fmt.Errorf("%s:%d: bad declare directive", path, ln)
+				}
+				if mod.Declares == nil {
+					mod.Declares = map[string]string{}
+				}
+				mod.Declares[fs[0]] = strings.TrimSpace(fs[1])
 			case strings.HasPrefix(body, "pred "):
 				if mod == nil {
 					return fmt.Errorf("%s:%d: pred before module", path, ln)
@@ -162,7 +172,13 @@ func parsePredDecl(s, path string, ln int) (*SpecPred, error) {
 
 func (sl *SpecLib) apply(ec *EvalCtx, e *CExpr) Val {
 	st := ec.st
-	p := sl.Preds[e.Name]
+	var p *SpecPred
+	if ec.pkg != nil {
+		p = sl.Preds[e.Name+"@"+shortPkg(ec.pkg.Path())]
+	}
+	if p == nil {
+		p = sl.Preds[e.Name]
+	}
 	if p == nil {
 		fail("unknown spec function @%s", e.Name)
 	}
@@ -195,12 +211,40 @@ func (sl *SpecLib) apply(ec *EvalCtx, e *CExpr) Val {
 	return TV{app(p.Fun, p.Sort, args...), nil}
 }
 
+// variantOf: modules with variants ("heaporder.abs" / "heaporder.pq") are selected by the package being verified.
+func (sl *SpecLib) resolve(mod, variant string) string {
+	if _, ok := sl.Modules[mod]; ok {
+		return mod
+	}
+	if _, ok := sl.Modules[mod+"."+variant]; ok {
+		return mod + "." + variant
+	}
+	return mod
+}
+
+func (vc *VC) specVariant() string {
+	pkg := ""
+	if vc.fn != nil {
+		pkg = pkgPathOf(vc.fn)
+	} else {
+		pkg = vc.lemmaPkg
+	}
+	if pkg == "container/heap" {
+		return "abs"
+	}
+	return "pq"
+}
+
 func (sl *SpecLib) need(vc *VC, mod string) {
+	mod = sl.resolve(mod, vc.specVariant())
 	if vc.modules[mod] {
 		return
 	}
 	vc.modules[mod] = true
 	if m := sl.Modules[mod]; m != nil {
+		for n, sig := range m.Declares {
+			vc.strLits["fun."+n] = sig
+		}
 		for _, r := range m.Requires {
 			sl.need(vc, r)
 		}
@@ -209,6 +253,12 @@ func (sl *SpecLib) need(vc *VC, mod string) {
 
 // prelude text for a set of modules, dependencies first.
 func (sl *SpecLib) prelude(mods map[string]bool) string {
+	variant := "pq"
+	for n := range mods {
+		if strings.HasSuffix(n, ".abs") {
+			variant = "abs"
+		}
+	}
 	var order []string
 	seen := map[string]bool{}
 	var visit func(n string)
@@ -222,7 +272,7 @@ func (sl *SpecLib) prelude(mods map[string]bool) string {
 			return
 		}
 		for _, r := range m.Requires {
-			visit(r)
+			visit(sl.resolve(r, variant))
 		}
 		order = append(order, n)
 	}
